@@ -7,6 +7,7 @@ import (
 	"os"
 
 	"verifharness/engines/c08"
+	"verifharness/engines/c10"
 	"verifharness/engines/c14"
 	"verifharness/engines/c15"
 	"verifharness/gen"
@@ -14,6 +15,7 @@ import (
 
 var engines = map[string]func(*gen.Ctx) error{
 	"c08": c08.Run,
+	"c10": c10.Run,
 	"c14": c14.Run,
 	"c15": c15.Run,
 }
